@@ -111,6 +111,16 @@ def cases(tier, seed):
                         'verbose': rng.randint(0, 3),
                         'yseed': rng.randrange(1 << 30),
                         'wseed': rng.randrange(1 << 30)})
+    # a layer that keeps chattering (hundreds of quick tests = a steady
+    # stream of keep-alive dots) while a short layer finishes and a third
+    # one waits for the free slot
+    for _ in range(4 if tier == 'quick' else 16):
+        idx += 1
+        out.append({'idx': idx, 'chatty': True, 'k': 3, 'N': 2,
+                    'perm': [1, 2, 0], 'hold': 'none',
+                    'verbose': rng.choice([2, 2, 3, 1]),
+                    'yseed': rng.randrange(1 << 30),
+                    'wseed': rng.randrange(1 << 30)})
     rng.shuffle(out)
     return out
 
@@ -122,7 +132,68 @@ def strip_keepalive(text):
     return BRACKET_RE.sub('', text)
 
 
+def run_chatty(case):
+    """Bounded progress while a child is chatty: once the short layer has
+    been reaped, the waiting layer must be started within a few seconds
+    although the long layer keeps sending keep-alive dots."""
+    import common
+    import gen
+    import vworld
+    rng = random.Random(case['wseed'])
+    prefix = 'vwj%d' % case['idx']
+    layers = [{'name': 'L%d' % i, 'kind': 'class', 'bases': [],
+               'hooks': {'setUp': 'ok', 'tearDown': 'ok'}} for i in range(3)]
+    nlong = 450
+    tbl = {'L0': [{'name': 'test_%03d' % j, 'kind': 'pass', 'actions': [
+        {'ph': 'body', 'do': 'sleep', 's': 0.03}]} for j in range(nlong)],
+        'L1': [{'name': 'test_0', 'kind': 'pass'}],
+        'L2': [{'name': 'test_0', 'kind': 'pass'},
+               {'name': 'test_1', 'kind': rng.choice(['pass', 'fail'])}]}
+    spec = gen.simple_world(prefix, layers, tbl)
+    lm = spec['layers_module']
+    counters = {'chatty_runs': 1}
+    viol = []
+    w = common.run_world(spec, None, {'verbose': case['verbose'],
+                                      'processes': 2}, timeout=180)
+    if w.raised is not None:
+        return {'viol': [{'rule': 'parallel-run-aborted',
+                          'mech': 'run-raised',
+                          'detail': {'tb': (w.raised_tb or '')[-600:]}}],
+                'evals': 1, 'counters': counters}
+    ev = w.events
+    reap1 = next((e for e in ev if e['k'] == 'reap' and
+                  e.get('layer') == lm + '.L1'), None)
+    spawn2 = next((e for e in ev if e['k'] == 'spawn' and
+                   e.get('layer') == lm + '.L2'), None)
+    reap0 = next((e for e in ev if e['k'] == 'reap' and
+                  e.get('layer') == lm + '.L0'), None)
+    if not (reap1 and spawn2 and reap0):
+        return {'inconclusive': 'spawn/reap events missing',
+                'counters': counters}
+    gap = (spawn2['t'] - reap1['t']) / 1e9
+    left = (reap0['t'] - reap1['t']) / 1e9
+    counters['chatty_gap_ms'] = int(max(gap, 0) * 1000)
+    if left < 6:
+        # the long layer was (nearly) over anyway: nothing to conclude
+        return {'inconclusive': 'long layer ended %.1fs after the short '
+                'one' % left, 'counters': counters}
+    counters['chatty_judged'] = 1
+    if gap > 5.0:
+        viol.append({'rule': 'ready-layer-not-started-although-a-slot-was-'
+                             'free', 'mech': 'par-free-slot-unused',
+                     'detail': {'seconds_waited': round(gap, 2),
+                                'long_layer_alive_for': round(left, 2),
+                                'verbose': case['verbose'], 'N': 2,
+                                'chatty': True}})
+    return {'viol': viol, 'evals': 1, 'counters': counters,
+            'sig': ['chatty', case['verbose']],
+            'sample': {'chatty': True, 'gap_s': round(gap, 3),
+                       'long_layer_alive_for_s': round(left, 1)}}
+
+
 def run_case(case):
+    if case.get('chatty'):
+        return run_chatty(case)
     import common
     import gen
     import runcase
